@@ -35,6 +35,20 @@ func (storageSlice) Corpus() [][]string {
 		{"newpart", "wr 0 00", "rdfile 1", "rdpart 0", "size"},
 		// negative seeks
 		{"newpart", "seek 0 -1 start", "wr 0 0102", "seek 0 -3 cur", "seek 0 -2 cur", "wr 0 03", "fin", "rdfile 1"},
+		// the non-vacuity example of Hls/Props/C17.lean (exOps) followed by Remove
+		{"newpart", "wr 0 0102030405", "seek 0 1 start", "wr 0 0908", "seek 0 4 cur", "wr 0 07", "rdpart 0", "rdfile 1", "size",
+			"newpart", "newpart", "wr 2 06", "seek 2 2 cur", "seek 2 -9 cur", "rdpart 1",
+			"fin", "rdpart 0", "rdpart 1", "rdpart 2", "rdfile 0,3,0,2", "rdfile -", "size",
+			"rm", "size", "rdfile 2", "rdpart 0"},
+		// zero-length reads while empty parts remain; (n>0, EOF) in one call
+		{"newpart", "newpart", "newpart", "wr 2 03", "fin", "rdfile 0,0,0,0,0", "rdfile 0,7", "rdfile 1,0,1"},
+		// OUTSIDE the discipline (model = implementation only): an earlier part is written after a
+		// later one was allocated -- the disk back end overwrites/loses data, RAM does not
+		{"newpart", "wr 0 01", "newpart", "wr 0 0203", "rdpart 0", "rdpart 1", "fin", "rdpart 0", "rdpart 1", "rdfile -", "size"},
+		{"newpart", "wr 0 0102", "newpart", "wr 1 0304", "seek 0 0 start", "wr 0 090807", "fin", "rdpart 0", "rdpart 1", "rdfile 2", "size"},
+		// OUTSIDE the discipline: Remove before Finalize, writes after Finalize
+		{"newpart", "wr 0 0102", "rm", "rdpart 0", "rdfile -", "wr 0 03", "fin", "rdpart 0", "rdfile -", "size"},
+		{"newpart", "wr 0 0102", "fin", "wr 0 0304", "rdpart 0", "rdfile 1", "size", "rdpart 7"},
 	}
 }
 
@@ -54,6 +68,17 @@ func (storageSlice) Gen(r *rand.Rand, _ int, tier string) ([]string, []string) {
 		maxOps = 100 + r.Intn(200)
 	}
 	bigWrites := r.Intn(8) == 0
+	// low-weight stream outside the property's quantifier (only model = implementation is
+	// compared, the direct oracle stops at the first undisciplined op): writes/seeks to
+	// earlier parts, Remove before Finalize, writes after Finalize.
+	undisc := r.Intn(12) == 0
+	target := func() int {
+		if undisc && nparts > 1 && r.Intn(3) == 0 {
+			return r.Intn(nparts)
+		}
+		return nparts - 1
+	}
+	sawEarlier, sawRmEarly := false, false
 	randBytes := func() []byte {
 		var n int
 		switch r.Intn(6) {
@@ -99,10 +124,24 @@ func (storageSlice) Gen(r *rand.Rand, _ int, tier string) ([]string, []string) {
 		}
 		return strings.Join(s, ",")
 	}
+	if r.Intn(60) == 0 {
+		// a file without parts
+		ops = []string{"rdfile " + bufs(), "size", "fin", "rdfile " + bufs(), "rdfile " + bufs(), "size"}
+		if r.Intn(2) == 0 {
+			ops = append(ops, "rm", "rdfile "+bufs(), "size")
+			tags = append(tags, "remove")
+		}
+		return ops, append(tags, "parts=0")
+	}
 	sawSeekPast, sawRewrite, sawEmptyPart := false, false, false
 	curLen, curPos := 0, 0
 	partHasData := false
 	for len(ops) < maxOps {
+		if undisc && nparts > 0 && r.Intn(40) == 0 {
+			ops = append(ops, "rm")
+			sawRmEarly = true
+			continue
+		}
 		switch x := r.Intn(100); {
 		case x < 18 || nparts == 0:
 			if nparts > 0 && !partHasData {
@@ -113,7 +152,11 @@ func (storageSlice) Gen(r *rand.Rand, _ int, tier string) ([]string, []string) {
 			curLen, curPos, partHasData = 0, 0, false
 		case x < 60:
 			b := randBytes()
-			ops = append(ops, fmt.Sprintf("wr %d %s", nparts-1, hexOrDash(b)))
+			k := target()
+			if k != nparts-1 {
+				sawEarlier = true
+			}
+			ops = append(ops, fmt.Sprintf("wr %d %s", k, hexOrDash(b)))
 			if curPos < curLen && len(b) > 0 {
 				sawRewrite = true
 			}
@@ -140,7 +183,11 @@ func (storageSlice) Gen(r *rand.Rand, _ int, tier string) ([]string, []string) {
 			if wh == "cur" {
 				np = curPos + off
 			}
-			ops = append(ops, fmt.Sprintf("seek %d %d %s", nparts-1, off, wh))
+			k := target()
+			if k != nparts-1 {
+				sawEarlier = true
+			}
+			ops = append(ops, fmt.Sprintf("seek %d %d %s", k, off, wh))
 			if np >= 0 {
 				curPos = np
 				if np > curLen {
@@ -161,6 +208,31 @@ func (storageSlice) Gen(r *rand.Rand, _ int, tier string) ([]string, []string) {
 		ops = append(ops, fmt.Sprintf("rdpart %d", i))
 	}
 	ops = append(ops, "rdfile "+bufs(), "rdfile "+bufs(), "size")
+	if undisc && nparts > 0 && r.Intn(2) == 0 {
+		// NON-EMPTY writes after Finalize: RAM accepts them, the disk back end's handle is
+		// closed.  (Seeks and empty writes after Finalize are not generated: there the real
+		// disk back end either succeeds on the orphaned mirror buffer or panics with a nil
+		// dereference, depending on when Part.Writer() was called -- see notes/storage.md.)
+		for i := r.Intn(4) + 1; i > 0; i-- {
+			k := r.Intn(nparts)
+			b := randBytes()
+			if len(b) == 0 {
+				b = []byte{byte(r.Intn(256))}
+			}
+			ops = append(ops, fmt.Sprintf("wr %d %s", k, hexOrDash(b)), fmt.Sprintf("rdpart %d", k))
+		}
+		ops = append(ops, fmt.Sprintf("rdpart %d", nparts+r.Intn(3)), "rdfile "+bufs(), "size")
+		tags = append(tags, "write-after-fin")
+	}
+	if undisc {
+		tags = append(tags, "undisciplined")
+	}
+	if sawEarlier {
+		tags = append(tags, "write-earlier-part")
+	}
+	if sawRmEarly {
+		tags = append(tags, "rm-before-fin")
+	}
 	if r.Intn(3) == 0 {
 		ops = append(ops, "rm", "rdfile -", "size")
 		if nparts > 0 {
@@ -198,6 +270,7 @@ type storageRunner struct {
 	refPos  []int
 	fin     bool
 	removed bool
+	tainted bool // an op outside the property's quantifier was seen: the reference no longer applies
 	fails   []string
 }
 
@@ -410,12 +483,15 @@ func (r *storageRunner) Step(line string) []string {
 	a := r.ram.step(ws)
 	d := r.disk.step(ws)
 	// direct oracle, only inside the property's quantifier: disciplined ops
-	// (writes to the last part, nothing written after Finalize), until Remove.
+	// (writes to the last part, nothing written after Finalize).  The first write/seek
+	// outside the discipline ends the oracle for this case (the byte-slice reference no
+	// longer applies); model and implementation are still compared op by op.
 	disciplined := true
 	if ws[0] == "wr" || ws[0] == "seek" {
 		k, _ := strconv.Atoi(ws[1])
 		if k != len(r.ref)-1 || r.fin {
 			disciplined = false
+			r.tainted = true
 		}
 	}
 	if ws[0] == "rdpart" {
@@ -424,19 +500,24 @@ func (r *storageRunner) Step(line string) []string {
 			disciplined = false
 		}
 	}
-	if disciplined && !r.removed {
+	if disciplined && !r.tainted {
+		wasRemoved := r.removed
 		want := r.refStep(ws)
-		if !r.removed {
-			if a != want {
-				r.fails = append(r.fails, fmt.Sprintf("ram %q: got %s want %s", line, trunc(a), trunc(want)))
-			}
-			if d != want {
-				r.fails = append(r.fails, fmt.Sprintf("disk %q: got %s want %s", line, trunc(d), trunc(want)))
-			}
+		// RAM: Remove is a no-op, the reference keeps applying after it.
+		if a != want {
+			r.fails = append(r.fails, fmt.Sprintf("ram %q: got %s want %s", line, trunc(a), trunc(want)))
+		}
+		// disk: identical to the reference until Remove.
+		if !wasRemoved && d != want {
+			r.fails = append(r.fails, fmt.Sprintf("disk %q: got %s want %s", line, trunc(d), trunc(want)))
 		}
 	}
+	// "Remove deletes the disk file": no file reader, and no reader of a finalized part.
 	if r.removed && ws[0] == "rdfile" && d != "e" {
 		r.fails = append(r.fails, fmt.Sprintf("disk file readable after Remove: %s", trunc(d)))
+	}
+	if r.removed && r.fin && !r.tainted && ws[0] == "rdpart" && d != "e" {
+		r.fails = append(r.fails, fmt.Sprintf("disk part readable after Finalize+Remove: %q %s", line, trunc(d)))
 	}
 	return []string{fmt.Sprintf("ram:%s disk:%s", a, d)}
 }
